@@ -118,6 +118,107 @@ def _d2(chk, fb):
     chk.floor("D2", "forwarding calls with same-named parameters", n, 10)
 
 
+# ------------------------------------------------------------------------------------------------ D3b
+
+def _d3b(chk, fb):
+    """every element enters a reduction once: an accumulator seeded with a term of element 0 of the vector is completed by a
+    traversal that starts at element 1 (index loop from 1, std::accumulate from next(begin()) / begin() + 1); an accumulator
+    seeded with a constant by a traversal of the whole vector (index 0, range-for, begin()).  Seed from element 0 plus a whole
+    traversal counts element 0 twice; constant seed plus a traversal from 1 drops it.  Other shapes are not judged"""
+    n = 0
+    for f in sorted(_kernels(fb), key=lambda x: x.key):
+        if f.cls != VT or f.body is None:
+            continue
+        vecs = [p_["name"] for p_ in f.params if "vector" in (p_.get("ty") or "")]
+        if not vecs:
+            continue
+
+        def seed_of(expr):
+            """('elem0', vec) | ('const', None) | None"""
+            t = render(expr)
+            for v in vecs:
+                if ("%s[0]" % v) in t or ("%s.front()" % v) in t or ("*%s.begin()" % v) in t:
+                    return ("elem0", v)
+            e0 = strip(expr)
+            while e0 is not None and e0["k"] in ("CXXConstructExpr", "CXXFunctionalCastExpr", "CStyleCastExpr", "CXXStaticCastExpr", "InitListExpr") and len(kids(e0)) == 1:
+                e0 = strip(kids(e0)[0])
+            if e0 is not None and e0["k"] in ("IntegerLiteral", "FloatingLiteral"):
+                return ("const", None)
+            return None
+
+        def start_of_iter(expr):
+            """0 | 1 | None for an iterator expression over a vector parameter: (start, vec)"""
+            t = render(expr).replace("std::", "")
+            for v in vecs:
+                if t in ("%s.begin()" % v, "%s.cbegin()" % v):
+                    return 0, v
+                if t in ("next(%s.begin())" % v, "next(%s.begin(), 1)" % v, "(%s.begin() + 1)" % v, "++%s.begin()" % v, "next(%s.cbegin())" % v):
+                    return 1, v
+            return None, None
+        verdicts = []
+        # (a) std::accumulate(first, last, init, ...)
+        for c in f.calls():
+            if c["callee"]["name"] == "accumulate" and len(f.args(c)) >= 3:
+                st, v = start_of_iter(f.args(c)[0])
+                sd = seed_of(f.args(c)[2])
+                if st is None or sd is None or (sd[0] == "elem0" and sd[1] != v):
+                    continue
+                verdicts.append((c, sd[0], st, v))
+        # (b) accumulator local + loop
+        for dn in [x for x in f.all_nodes() if x["k"] == "DeclStmt"]:
+            for d in dn["decls"]:
+                if d.get("init") is None or is_call(strip(d["init"])) and strip(d["init"])["callee"]["name"] == "accumulate":
+                    continue
+                sd = seed_of(d["init"])
+                if sd is None:
+                    continue
+                adds = [x for x in f.all_nodes() if x["k"] == "CompoundAssignOperator" and x.get("op") == "+=" and strip(kids(x)[0])["k"] == "DeclRefExpr" and strip(kids(x)[0])["decl"]["id"] == d["id"]]
+                loops = {}
+                for a in adds:
+                    lp = f.enclosing(a, ("ForStmt", "CXXForRangeStmt", "WhileStmt"))
+                    if lp is not None:
+                        loops[lp["id"]] = lp
+                if len(loops) != 1:
+                    continue
+                lp = list(loops.values())[0]
+                st = v = None
+                if lp["k"] == "CXXForRangeStmt" and "rangeinit" in lp:
+                    ri = f.nodes.get(lp["rangeinit"]) if isinstance(lp["rangeinit"], int) else lp["rangeinit"]
+                    rt = render(ri).lstrip("*&(").rstrip(")") if ri is not None else ""
+                    if rt in vecs:
+                        st, v = 0, rt
+                elif lp["k"] == "ForStmt" and lp.get("init") is not None and "cond" in lp:
+                    ini = f.nodes.get(lp["init"])
+                    ct = render(f.nodes[lp["cond"]], local_inits(f))
+                    for vv in vecs:
+                        if ("%s.size()" % vv) in ct:
+                            v = vv
+                    if ini is not None and ini["k"] == "DeclStmt" and len(ini["decls"]) == 1 and ini["decls"][0].get("init") is not None:
+                        i0 = strip(ini["decls"][0]["init"])
+                        if i0["k"] == "IntegerLiteral":
+                            st = int(i0["val"])
+                        else:
+                            s2, v2 = start_of_iter(ini["decls"][0]["init"])
+                            if s2 is not None:
+                                st, v = s2, v2
+                if st is None or v is None or st not in (0, 1) or (sd[0] == "elem0" and sd[1] != v):
+                    continue
+                # the loop must read the traversed vector at the loop variable (not some other vector)
+                verdicts.append((dn, sd[0], st, v))
+        for node, seed, st, v in verdicts:
+            n += 1
+            con = "each-element-once:%s@%s" % (v, node.get("l"))
+            if (seed == "elem0") == (st == 1):
+                chk.proved("D3b", f.key, con, f.loc(node), "seed %s, traversal of %s from element %d" % ("= term of element 0" if seed == "elem0" else "constant", v, st))
+            elif seed == "elem0":
+                chk.refuted("D3b", f.key, con, f.loc(node), "%s: the accumulator starts with the term of %s[0] and the traversal visits %s from element 0 again: the first element is counted twice" % (f.name, v, v),
+                            witness={"input": "%s = {0, 0}: two equal terms give three" % v})
+            else:
+                chk.refuted("D3b", f.key, con, f.loc(node), "%s: the accumulator starts from a constant and the traversal of %s starts at element 1: the first element never enters the result" % (f.name, v),
+                            witness={"input": "%s = {5, 0}" % v})
+    chk.floor("D3b", "seeded reductions over a vector parameter", n, 5)
+
+
 # ------------------------------------------------------------------------------------------------ D3
 
 LOGFAMILY = ("logSumExp", "logMeanExp", "sumExp", "logNorm")
@@ -151,8 +252,17 @@ def _d3(chk, fb):
                     src = render(l)
                     # element of the same vector (v1[i], the accumulate lambda's element parameter is accepted for v1)
                     same = src.startswith(vec + "[") or (l["k"] == "DeclRefExpr" and l["decl"]["kind"] == "param" and f.enclosing(e, ("LambdaExpr",)) is not None)
+                    # the element variable of a range-for over the same vector, or a dereferenced iterator of it
+                    rfv = e1.rangefor_vars(f)
+                    if l["k"] == "DeclRefExpr" and l["decl"]["id"] in rfv:
+                        same = render(rfv[l["decl"]["id"]]).lstrip("*&(").startswith(vec)
+                        other_vec = not same
+                    else:
+                        other_vec = any(src.startswith(p_["name"] + "[") for p_ in f.params if p_["name"] != vec)
                     if same:
                         chk.proved("D3", f.key, construct, f.loc(e), "exponent shifted by %s = max(%s)" % (nm, vec))
+                    elif not other_vec:
+                        chk.unknown("D3", f.key, construct, f.loc(e), "what '%s' is an element of is not resolved" % src)
                     else:
                         chk.refuted("D3", f.key, construct, f.loc(e), "%s: exp(%s) subtracts the maximum of %s from an element of a different vector: the shift no longer bounds the exponent, large inputs overflow" % (f.name, render(a), vec),
                                     witness={"input": "v1 = {800, 801}"})
@@ -619,6 +729,8 @@ def run(chk, fb, tier):
     _d1(chk, fb)
     _d2(chk, fb)
     _d3(chk, fb)
+    chk.rule("D3b", "every element enters a seeded reduction once: seed from element 0 <=> traversal from element 1; constant seed <=> traversal of the whole vector")
+    _d3b(chk, fb)
     _d4(chk, fb)
     _d5(chk, fb)
     _d6(chk, fb)
